@@ -498,7 +498,7 @@ pub fn record(args: &[String]) -> i32 {
     for i in 0..count {
         if i % 12 == 5 {
             // targeted families that a random writer meets too rarely (one of four, in turn)
-            let fam = (i / 12) % 6;
+            let fam = (i / 12) % 7;
             let root = g.ncname();
             let e = g.ncname();
             let an = g.ncname();
@@ -573,6 +573,20 @@ pub fn record(args: &[String]) -> i32 {
                     let lex = if g.r.gen_bool(0.7) { "mismatch" } else { "ok" };
                     toks.push(json!({"k": "xmldecl", "ver": cp(&[49, 46, 48]), "enc": cp(&[]), "sa": "none", "lex": lex}));
                     toks.push(json!({"k": "stag", "n": cp(&root), "attrs": [], "lex": "ok"}));
+                    toks.push(json!({"k": "etag", "n": cp(&root)}));
+                }
+                6 => {
+                    // an entity whose replacement text is markup: well-formed content (<b/>) or not (<b>, </b>, <b, a<b>c),
+                    // referenced in content
+                    name = "entity-not-content";
+                    let vals: [&str; 6] = ["<b/>", "<b>", "</b>", "<b", "a<b>c", "<b></b>"];
+                    let v = vals[g.r.gen_range(0..vals.len())];
+                    let items: Vec<J> = v.chars().map(|c| if c == '<' { json!({"t": "r", "c": 60}) } else { json!({"t": "c", "c": c as u32}) }).collect();
+                    toks.push(json!({"k": "doctype", "n": cp(&root), "ext": "none", "pub": [], "sys": [], "subset": true}));
+                    toks.push(json!({"k": "entity", "n": cp(&e), "v": items}));
+                    toks.push(json!({"k": "dtdend"}));
+                    toks.push(json!({"k": "stag", "n": cp(&root), "attrs": [], "lex": "ok"}));
+                    toks.push(json!({"k": "text", "items": [{"t": "c", "c": 120}, {"t": "e", "n": cp(&e)}]}));
                     toks.push(json!({"k": "etag", "n": cp(&root)}));
                 }
                 5 => {
